@@ -111,3 +111,98 @@ def snap(h):
 
 def same_snap(a, b):
     return sx.norm(sx.enc(a)) == sx.norm(sx.enc(b))
+
+# ---------------------------------------------------------------- arithmetic cases ("ah" records)
+DTYPES = ["int16", "int32", "int64", "float16", "float32", "float64", "float128"]
+
+def gen_axisd(rng, kind=None, w=None, shift=None, adaptive=None, maxbins=5, allow_empty=False):
+    kind = kind or rng.choice(["static", "fixed", "fixed"])
+    if kind == "static":
+        n = rng.randint(1, maxbins)
+        b = gen_bins(rng, n, gapped=rng.random() < 0.25)
+        return ["static", b, "T" if rng.random() < 0.5 else "F"]
+    w = w or Fr(rng.choice([1, 2, 4, 8, 3, 12]), rng.choice([1, 2, 4, 8]))
+    shift = Fr(0) if shift is None else shift
+    n = rng.randint(0 if allow_empty else 1, maxbins)
+    ad = (rng.random() < 0.5) if adaptive is None else adaptive
+    incl = "F" if ad else ("T" if rng.random() < 0.3 else "F")
+    return ["fixed", w, shift, rng.randint(-6, 6), n, incl, "T" if ad else "F"]
+
+def axisd_len(a):
+    return len(a[1]) if a[0] == "static" else a[4]
+
+def gen_stats(rng, valid=True):
+    if not valid: return ["nan"] * 6
+    mn = dy(rng, -10, 10); mx = mn + Fr(rng.randint(0, 40), 4)
+    return [dy(rng, -50, 50), Fr(rng.randint(0, 4000), 8), mn, mx, Fr(rng.randint(1, 80), 4), rng.choice(["nan", dy(rng, -5, 5)])]
+
+def gen_ah(rng, axes, dtype=None, missed=True, stats=None, maxval=9):
+    nd = len(axes)
+    size = 1
+    for a in axes: size *= axisd_len(a)
+    dtype = dtype or rng.choice(DTYPES)
+    if dtype.startswith("int"):
+        freq = [rng.choice([0, 0, 1, 2, 3, 5, maxval]) for _ in range(size)]
+        err2 = list(freq) if rng.random() < 0.5 else [rng.randint(0, 12) for _ in range(size)]
+        m = [rng.randint(0, 3) if missed else 0 for _ in range(3 if nd == 1 else 1)]
+    else:
+        freq = [Fr(rng.randint(0, 8 * maxval), 8) for _ in range(size)]
+        err2 = [Fr(rng.randint(0, 64), 8) for _ in range(size)]
+        m = [Fr(rng.randint(0, 24), 8) if missed else 0 for _ in range(3 if nd == 1 else 1)]
+    if stats is None:
+        stats = "none" if nd > 1 else gen_stats(rng, valid=rng.random() < 0.8)
+    return [["axes", axes], ["freq", freq], ["err2", err2], ["missed", m], ["dtype", dtype], ["stats", stats],
+            ["keep", "T"], ["names", ["ax%d" % i for i in range(nd)]]]
+
+def mk_axis_binning(a):
+    import numpy as np
+    from physt import binnings as B
+    if a[0] == "static":
+        arr = np.array([[float(x), float(y)] for x, y in a[1]], dtype=float).reshape(-1, 2)
+        return B.StaticBinning(arr, includes_right_edge=b2(a[2]))
+    _, w, sh, tmin, n, incl, ad = a
+    kw = dict(bin_width=float(w), bin_count=n, adaptive=b2(ad), includes_right_edge=b2(incl))
+    if n > 0: kw.update(bin_times_min=int(tmin), bin_shift=float(sh))
+    elif sh != 0: kw.update(bin_shift=float(sh))
+    return B.FixedWidthBinning(**kw)
+
+def mk_ah(hc):
+    import numpy as np
+    from physt.histogram1d import Histogram1D
+    from physt.histogram_nd import HistogramND, Histogram2D
+    from physt.statistics import Statistics
+    d = sx.rec(hc)
+    axes = d["axes"]; nd = len(axes)
+    binnings = [mk_axis_binning(a) for a in axes]
+    dtype = np.dtype("longdouble" if d["dtype"] == "float128" else d["dtype"])
+    shape = [axisd_len(a) for a in axes]
+    freq = np.array([float(x) for x in d["freq"]]).astype(dtype).reshape(shape)
+    err2 = np.array([float(x) for x in d["err2"]]).astype(dtype).reshape(shape)
+    m = [sx.fl(x) for x in d["missed"]]
+    names = d.get("names")
+    if nd == 1:
+        st = d["stats"]
+        stats = None
+        if st != "none":
+            v = [sx.fl(x) for x in st]
+            stats = Statistics(sum=v[0], sum2=v[1], min=v[2], max=v[3], weight=v[4], median=v[5])
+        return Histogram1D(binnings[0], freq, errors2=err2, underflow=m[0], overflow=m[1], inner_missed=m[2],
+                           stats=stats, dtype=dtype, keep_missed=b2(d.get("keep", "T")), axis_name=names[0] if names else None)
+    cls = Histogram2D if nd == 2 else HistogramND
+    return cls(binnings, freq, errors2=err2, missed=m[0], dtype=dtype, axis_names=names)
+
+def dtype_name(dt):
+    s = str(dt)
+    return "float128" if s in ("float128", "longdouble") else s
+
+def snap_ah(h):
+    """[bins per axis, freq, err2, missed, dtype, stats]"""
+    import numpy as np
+    m = [float(x) for x in np.asarray(h._missed).tolist()]
+    st = "none"
+    if hasattr(h, "_stats") and h._stats is not None:
+        s = h._stats
+        st = [float(s.sum), float(s.sum2), float(s.min), float(s.max), float(s.weight), float(s.median)]
+    fr = np.asarray(h.frequencies); e2 = np.asarray(h.errors2)
+    return [snap_bins(h), [float(x) for x in fr.ravel().tolist()], [float(x) for x in e2.ravel().tolist()], m,
+            dtype_name(fr.dtype if dtype_name(fr.dtype) == dtype_name(h.dtype) else "MISMATCH:%s/%s" % (h.dtype, fr.dtype)), st]
